@@ -47,7 +47,9 @@ KEYS = {
     "FailedReported": ("failed-not-reported", "an executor that waited on a failed PREPARE did not get the error"),
     "ExecAttribution": ("exec-id-not-from-own-flight", "EXECUTE/BATCH carried an id that no PREPARE this executor waited on returned"),
     "ArityChecked": ("arity-frame-sent", "an execution with a wrong number of values reached the wire or succeeded"),
-    "ExecForeignId": ("exec-foreign-id", "EXECUTE/BATCH sent with an id prepared on another host or keyspace"),
+    "ExecUnknownId": ("exec-unknown-id", "EXECUTE/BATCH sent with an id no node ever returned"),
+    "ExecForeignHost": ("exec-foreign-host", "EXECUTE/BATCH sent to a host with an id prepared on another host"),
+    "ExecForeignKeyspace": ("exec-foreign-keyspace", "EXECUTE/BATCH sent on a connection with an id prepared in another keyspace"),
     "ExecWrongStatement": ("exec-wrong-statement", "EXECUTE/BATCH sent with the id of a different statement"),
     "ArityNotChecked": ("arity-not-checked", "a wrong number of bound values was sent instead of being reported"),
     "UnpreparedNotReprepared": ("unprepared-not-reprepared", "after UNPREPARED the same stale id was sent again"),
@@ -274,6 +276,14 @@ def run(ctx):
     binary = fut_build.result()
     f_rep = pool.submit(vf.run_gotest, ctx, binary, "^TestVfC14Replay$", {"VF_C14_SCENARIOS": sp, "VF_C14_PAR": 4}, 1500)
     f_free = pool.submit(vf.run_gotest, ctx, binary, "^TestVfC14Free$", {"VF_C14_SCEN": nfree, "VF_C14_PAR": 4}, 1500)
+    f_race = None
+    if not quick:
+        # the same free-running scenarios (other seeds) under the race detector
+        rdir = os.path.join(ctx.tmp, "race")
+        os.makedirs(rdir, exist_ok=True)
+        rbin = vf.build_gotest(ctx, ".", ["common", "c14"], race=True)
+        f_race = pool.submit(vf.run_gotest, ctx, rbin, "^TestVfC14Free$",
+                             {"VF_C14_SCEN": 120, "VF_C14_PAR": 4, "VF_C14_BASE": 50000, "VF_OUT": rdir}, 1500)
     rc1, out1 = f_rep.result()
     rc2, out2 = f_free.result()
     s_rep, s_free = _summary(out1, "replay"), _summary(out2, "free")
@@ -300,6 +310,17 @@ def run(ctx):
         if not os.path.exists(p):
             raise vf.Inconclusive("no trace file %s" % fn)
         recs += vf.read_ndjson(p)
+    races = 0
+    if f_race is not None:
+        rc3, out3 = f_race.result()
+        s_race = _summary(out3, "free (race detector)")
+        races = out3.count("WARNING: DATA RACE")
+        ctx.log("free under the race detector: %s, %d race reports" % (s_race, races))
+        if races:
+            i = out3.index("WARNING: DATA RACE")
+            ctx.add_drift("the race detector reported %d data race(s) while the prepared-statement paths ran (not decided by "
+                          "C14's statement; see C17): %s" % (races, out3[i:i + 1500].replace("\n", " | ")))
+        recs += vf.read_ndjson(os.path.join(ctx.tmp, "race", "c14_free.ndjson"))
     if sum(1 for r in recs if r["ev"] == "n_execute") == 0 or sum(1 for r in recs if r["ev"] == "c_miss") == 0:
         raise vf.Inconclusive("the drivers recorded no PREPARE/EXECUTE activity")
     paths, blocks = _shard(ctx, recs, 3 if quick else 10, "all")
@@ -340,6 +361,7 @@ def run(ctx):
         behaviours_from_tlc=len(scenarios), target_behaviours=ntarget, behaviours_followed_by_code=followed,
         commands_replayed=sum(r["steps"] for r in results),
         free_scenarios=s_free["scenarios"], free_executors=s_free["execs"], executor_hangs=s_free["hangs"],
+        race_detector_reports=races,
         events_evaluated_by_tlc=lines, scenarios_with_drift=len(dseen), scenarios_with_violation=len({v["scn"] for v in viols}),
         event_mix=dict(collections.Counter(r["ev"] for r in recs)),
         samples=[dict(kind="tlc behaviour replayed on the real code", name=sample_scn["name"], cache_size=sample_scn["max"],
